@@ -134,3 +134,34 @@ fn c10_async_rx_downlink_timeouts() { rx_downlink_timing(false) }
 #[kani::stub(crate::mac::Mac::rx2_complete, stub_mac_rx2_complete)]
 #[kani::unwind(66)]
 fn c07_async_rx_downlink_stray() { rx_downlink_timing(true) }
+
+// ------------------------------------------------------------------------------------------------
+// C12: "disabling ADR restarts the count" -- Device::set_adr of this front-end, from any session
+fn set_adr_post(old: Option<crate::mac::Session>, new: Option<&crate::mac::Session>, old_enabled: bool, now_enabled: bool, arg: bool) {
+    let _ = old_enabled;
+    assert!(now_enabled == arg, "C12 set_adr stores the flag");
+    match (old, new) {
+        (Some(o), Some(n)) => {
+            if !arg { assert!(n.adr_ack_cnt == 0, "C12 disabling ADR restarts the ADR acknowledgement count"); }
+            else { assert!(n.adr_ack_cnt == o.adr_ack_cnt, "C12 enabling ADR leaves the count alone"); }
+            assert!(crate::mac::verif_mac::sessions_equal_but_adr_cnt(&o, n), "set_adr frame: nothing else of the session changes");
+        }
+        (None, None) => {}
+        _ => { assert!(false, "set_adr neither creates nor destroys a session"); }
+    }
+}
+// @verif props=C12 obligation=async_device::Device::set_adr.contract label=proved-complete tier=quick bound="joined with any session"
+#[kani::proof]
+#[kani::unwind(18)]
+fn c12_async_set_adr() {
+    tape::init();
+    let mut d = device(0);
+    d.mac.configuration.adr_enabled = tape::boolean();
+    let old = d.mac.get_session().cloned();
+    let old_enabled = d.get_adr();
+    let arg = tape::boolean();
+    d.set_adr(arg);
+    set_adr_post(old, d.mac.get_session(), old_enabled, d.get_adr(), arg);
+    kani::cover!(!arg, "verif-reached: ADR switched off");
+    kani::cover!(arg, "verif-reached: ADR switched on");
+}
